@@ -22,7 +22,7 @@ META = dict(
                 "Candidate identifier sets include identifiers that are substrings of one another. The two readers of the RAIRE format are "
                 "run on the same file whose ballot ids and rankings are chosen by the solver. (The re-application clause is part of the C04 harness.)",
     bounds={"quick": {"candidates": 3, "identifier sets": [["A", "B", "C"], ["1", "10", "2"]]},
-            "thorough": {"candidates": "3 and 4", "identifier sets": [["A", "B", "C"], ["1", "10", "2"], ["1", "2", "12", "21"]]}},
+            "thorough": {"candidates": "3, 4 and 5", "identifier sets": [["A", "B", "C"], ["1", "10", "2"], ["1", "2", "12", "21"]]}},
     outside=["ballots with repeated candidates or gaps in the ranks (excluded by the property)", "files with more than 3 ballot rows"],
     assumptions=["rankings are duplicate-free prefixes"],
     trusted=["symx builtins model"],
@@ -77,7 +77,7 @@ def ballot_vars(ex, cands, tag="r"):
 
 def cells(tier):
     out = []
-    sets = [["A", "B", "C"], ["1", "10", "2"]] + ([["1", "2", "12", "21"]] if tier != "quick" else [])
+    sets = [["A", "B", "C"], ["1", "10", "2"]] + ([["1", "2", "12", "21"], ["A", "B", "C", "D", "E"]] if tier != "quick" else [])
     for cands in sets:
         for w, l in itertools.permutations(cands, 2):
             out.append(dict(kind="leaf", cands=cands, type="NEB", winner=w, loser=l, elim=[]))
